@@ -32,7 +32,7 @@ theorem newSurface_body_eq_model (R : Ro) (w h : UInt16) (wd : Val) (scr : Scree
     (run R SurfaceBodies.newSurface SurfaceBodies.newSurfaceParams [.u16 w, .u16 h, wd] scr).map (·.1)
       = .ok (.surf (newSurface exactA w h)) := by
   simp [SurfaceBodies.newSurface, SurfaceBodies.newSurfaceParams, newSurface, bufLen, VaxisModel.Model.Surface.exact,
-    mul_toNat_nonneg, toNat_mul_cast]
+    mul_toNat_nonneg, toNat_mul_cast] <;> try (rw [Nat.mul_comm])
 
 /-- **NewSubSurface**: origin (col,row), ZIndex 0. -/
 theorem newSubSurface_body_eq_model (R : Ro) (c r : Int) (s : Surface) (scr : Screen) :
@@ -57,17 +57,14 @@ theorem writeCell_body_eq_model (R : Ro) (s : Surface) (col row : UInt16) (c : C
          | .error p => .error (.panic p)) := by
   cases s with
   | mk w h b k =>
-  by_cases h1 : w ≤ col
-  · simp [SurfaceBodies.writeCell, SurfaceBodies.writeCellParams, writeCell, wcReject, VaxisModel.Model.Surface.exact, Surface.w, h1]
-  · by_cases h2 : h ≤ row
-    · simp [SurfaceBodies.writeCell, SurfaceBodies.writeCellParams, writeCell, wcReject, VaxisModel.Model.Surface.exact, Surface.w, Surface.h, h1, h2]
-    · have hi : ((row.toNat : Int) * (w.toNat : Int) + (col.toNat : Int)) = ((row.toNat * w.toNat + col.toNat : Nat) : Int) := by
-        simp [Int.natCast_add, Int.natCast_mul]
-      simp [SurfaceBodies.writeCell, SurfaceBodies.writeCellParams, writeCell, wcReject, wcIndex, VaxisModel.Model.Surface.exact,
-        Surface.w, Surface.h, Surface.buf, Surface.setBuf, h1, h2]
-      rw [hi]
-      simp only [Int.toNat_natCast, Int.natCast_nonneg, true_and]
-      by_cases hb : row.toNat * w.toNat + col.toNat < b.length <;> simp [hb]
+  by_cases h1 : w ≤ col <;> by_cases h2 : h ≤ row
+  · simp [SurfaceBodies.writeCell, SurfaceBodies.writeCellParams, writeCell, wcReject, VaxisModel.Model.Surface.exact, Surface.w, Surface.h, h1, h2]
+  · simp [SurfaceBodies.writeCell, SurfaceBodies.writeCellParams, writeCell, wcReject, VaxisModel.Model.Surface.exact, Surface.w, Surface.h, h1, h2]
+  · simp [SurfaceBodies.writeCell, SurfaceBodies.writeCellParams, writeCell, wcReject, VaxisModel.Model.Surface.exact, Surface.w, Surface.h, h1, h2]
+  · -- inside: the index, whichever way the sum and the product are written
+    simp [SurfaceBodies.writeCell, SurfaceBodies.writeCellParams, writeCell, wcReject, wcIndex, VaxisModel.Model.Surface.exact,
+      Surface.w, Surface.h, Surface.buf, Surface.setBuf, h1, h2, ← Int.natCast_mul, ← Int.natCast_add, Nat.mul_comm, Nat.add_comm]
+    by_cases hb : col.toNat + row.toNat * w.toNat < b.length <;> simp [hb]
 
 /-- **Center.Draw**, executed: the bounded-constraint panic first; the child drawn with `Max` handed on;
 `NewSurface(Max.Width, Max.Height)`; offsets `(Max − child)/2` in uint16; `AddChild(int(offX), int(offY), child)`. -/
